@@ -8,6 +8,7 @@ from .iops import IntOps, norm
 from .program import Program, EXIT
 
 MISSING = object()
+PHIS_DONE = object()
 
 
 class Obligation:
@@ -37,6 +38,10 @@ class Ctx:
         self.vars = {}          # harness variable name -> term
         self.params = {}        # vParam values
         self.mulchain = {}
+        self.mulwit = []
+        self.memo = {}
+        self.products = {}
+        self.product_terms = {}
         self.notes = []
         self.reached = {}
         self.stats = {"instrs": 0, "forks": 0, "feas_checks": 0, "calls": 0}
@@ -664,7 +669,7 @@ class Executor:
         ctx = self.ctx
         while True:
             if blk == stop:
-                return pred
+                return PHIS_DONE if phis_done else pred
             b = blocks[blk]
             if not phis_done and pred is not None:
                 self.do_phis(fr, blk, pred)
@@ -726,7 +731,7 @@ class Executor:
                 def side(succ):
                     def run():
                         p = self.run_region(fr, succ, me, J)
-                        if J != EXIT:
+                        if J != EXIT and p is not PHIS_DONE:
                             self.do_phis(fr, J, p)
                     return run
                 saved_visits = dict(fr.visits) if incyc else None
